@@ -96,7 +96,7 @@ _sub_cache = {}
 ACTIVE = []       # property ids of the packs currently running, outermost first
 
 
-def compose(fx, chk, tier, tag, pid, rules, keyfilter=None, floor=None, what=None):
+def compose(fx, chk, tier, tag, pid, rules, keyfilter=None, floor=None, what=None, fn=None):
     """re-evaluate rule instances owned by pack `pid` and report them under rule `tag` of the composing check.
     Instances that are listed known findings of the owning property are not instances of the composition."""
     import importlib
@@ -109,13 +109,17 @@ def compose(fx, chk, tier, tag, pid, rules, keyfilter=None, floor=None, what=Non
         # the owning pack is further up the composition stack (it composes this one, which composes it back): its
         # instances are reported there, not here
         return 0
-    ck = (id(fx), pid, tier)
+    ck = (id(fx), pid, tier, getattr(fn, "__name__", None))
     if ck not in _sub_cache:
         sub = report.Check(pid)
         sub.finish = lambda *a, **k: 0
         ACTIVE.append(pid)
         try:
-            importlib.import_module(pid.lower()).run(fx, sub, tier)
+            if fn is not None:
+                # only the named part of the owning pack (a function taking (fx, sub)) is evaluated
+                fn(fx, sub)
+            else:
+                importlib.import_module(pid.lower()).run(fx, sub, tier)
         finally:
             ACTIVE.pop()
         _sub_cache[ck] = sub
